@@ -23,7 +23,7 @@ ASSUMPTIONS = [
 ]
 
 U32 = 2**32 - 1
-KNOWN_NAMES = {"21": "K_STR_WIDE", "34": "K_STR_QUOTE"}
+KNOWN_NAMES = {}      # no known class is left (K_STR_WIDE fixed by a3d91ee, K_STR_QUOTE by 6ef7f34)
 
 
 def hx(s):
@@ -241,16 +241,16 @@ class Gen:
     def string(self):
         rng = self.rng
         p = rng.random()
-        n = rng.choice([0, 1, 2, 3, 5, 8, 12]) if p < 0.95 else rng.choice([254, 255])
+        n = rng.choice([0, 1, 2, 3, 5, 8, 12]) if p < 0.95 else rng.choice([126, 127, 128, 254, 255])
         wide = 0
         if self.fmt == "xls":
             if rng.random() < 0.12:
                 wide = 1
-                alph = "abcXYZ 中文é€Ω" + '"'
+                alph = "abcXYZ 中文é€Ω\U0001F600\U00010000\U0010FFFF" + '"'
             else:
                 alph = "abcdefXYZ 0123,;()!$é\xff\x80" + ('"' if rng.random() < 0.15 else "")
         else:
-            alph = "abcdefXYZ 0123,;()!$é中文€Ω" + ('"' if rng.random() < 0.15 else "")
+            alph = "abcdefXYZ 0123,;()!$é中文€Ω\U0001F600\U00010000\U0010FFFF\uFEFF" + ('"' if rng.random() < 0.15 else "")
         s = [ord(rng.choice(alph)) for _ in range(n)]
         if self.fmt == "xlsb" and n >= 2 and rng.random() < 0.04:
             k = rng.randrange(3)
@@ -530,9 +530,13 @@ def corpus(ctx):
         ("xlsb", benv, "area3 r 2 0 0 1 1 1 16383 0 0"),
         ("xls", xenv, "fvar v 4 3 ref r 0 0 1 1 miss int 7"),     # SUM(A1,,7)
         ("xls", xenv, "func v 1 3 bool 1 int 5 func v 19 0"),     # IF(TRUE,5,PI())
-        ("xls", xenv, "str 1 97.98"),                             # K_STR_WIDE witness
-        ("xls", xenv, "str 0 97.34.98"),                          # K_STR_QUOTE witness
+        ("xls", xenv, "str 1 97.98"),                             # former K_STR_WIDE witness (fixed by a3d91ee)
+        ("xls", xenv, "str 1 97"),
+        ("xls", xenv, "str 1 20013.128512.34.65279"),             # wide, astral (surrogate pair), quote, U+FEFF
+        ("xls", xenv, "bin 8 str 1 26085.26412 ref r 0 0 1 1"),    # tokens after a wide string stay in sync
+        ("xls", xenv, "str 0 97.34.98"),                          # former K_STR_QUOTE witness (fixed by 6ef7f34)
         ("xlsb", benv, "str 0 97.34.98"),
+        ("xlsb", benv, "str 0 34.34.128512.34"),
         ("xlsb", benv, "str 0 65279.97"),                         # BOM-like first character (fixed by 98c2838)
     ]
     ast_lines, impl_lines = [], []
